@@ -734,11 +734,17 @@ func (vfs *OrefaFS) RemoveAll(path string) error {
 		return nil
 	}
 
+	// The nodes are locked like in Remove : open directory handles read the children under these locks.
+	parent.mu.Lock()
+	defer parent.mu.Unlock()
+
 	if child.mode.IsDir() {
 		vfs.removeAll(absPath, child)
+	} else {
+		child.mu.Lock()
+		child.remove()
+		child.mu.Unlock()
 	}
-
-	child.remove()
 
 	delete(parent.children, fileName)
 	delete(vfs.nodes, absPath)
@@ -747,6 +753,9 @@ func (vfs *OrefaFS) RemoveAll(path string) error {
 }
 
 func (vfs *OrefaFS) removeAll(absPath string, rootNode *node) {
+	rootNode.mu.Lock()
+	defer rootNode.mu.Unlock()
+
 	if rootNode.mode.IsDir() {
 		for fileName, nd := range rootNode.children {
 			path := absPath + string(vfs.PathSeparator()) + fileName
